@@ -220,6 +220,7 @@ def run(ctx):
                         ["%s:%d" % (g.file, g.line)])
 
     width_into_bytepos(ctx, "R03-e")
+    relayout_keeps_lines(ctx, "R03-f")
     D = r.rule("R03-d", "lists::write_list (with the closures it owns) reads every comment-bearing field of ListItem: "
                         "pre_comment, pre_comment_style, post_comment, new_lines")
     wl = p.named("write_list", within="rustfmt_nightly::lists")
@@ -269,3 +270,56 @@ def width_into_bytepos(ctx, rid):
                                 % _s(w[0].name), ["%s:%d" % (f.file, s[3]), w[0].loc()])
     r.instance(rid, "BytePos constructions examined", "ok", "", "%d constructions, none fed by a width function" % n, nontrivial=False)
     r.floor(rid, n, 30, "BytePos constructions")
+
+
+def relayout_keeps_lines(ctx, rid):
+    """R03-f: the layout-preserving re-indenter (block comments without `*`, macro bodies) drops a line only when it is empty"""
+    p, r = ctx.p, ctx.r
+    r.rule(rid, "utils::trim_left_preserve_layout: a (trimmed, line, prefix_width) triple with prefix_width=None and trimmed≠false — "
+                "the only triple the renderer turns into an empty line — is pushed only on paths where is_empty_line(line) holds; "
+                "the renderer returns String::new() only for that triple")
+    f = p.named("trim_left_preserve_layout", within="utils")
+    if f is None:
+        r.undecidable(rid, "utils::trim_left_preserve_layout not found")
+        return
+    PURE = ("is_empty_line", "get_prefix_space_width", "style_edition", "ends_with", "::eq", "::ne", "::ge", "::lt", "partial_cmp",
+            "::width", "saturating_sub", "is_string", "is_commented_string")
+    n_push = n_render = 0
+    for c in p.closures_of(f):
+        try:
+            paths = explore(c, is_effect=lambda k: k.name.endswith("::push"), pure=lambda k: any(x in k.name for x in PURE),
+                            max_paths=50000, program=p, inline="auto")
+        except TooManyPaths as e:
+            r.undecidable(rid, str(e))
+            return
+        r.paths(rid, len(paths))
+        for path in paths:
+            empty = any("is_empty_line(" in k and v is True for k, v in path.decisions)
+            for e in path.effects:
+                if e.kind != "call" or len(e.args) < 2:
+                    continue
+                t = vkey(e.args[1])
+                if not t.startswith("tuple("):
+                    continue
+                n_push += 1
+                parts = t[6:-1]
+                blanked = parts.endswith(",None") and not parts.startswith("false,")
+                if blanked and not empty:
+                    r.violation(rid, "trim_left_preserve_layout blanks a non-empty line",
+                                "pushes %s (rendered as an empty line) on a path where is_empty_line(line) is not established "
+                                "(decisions: %s): the text of that line — part of a comment or macro body — is lost"
+                                % (short(t)[:60], [(k[-34:], variant_name(v)) for k, v in path.decisions][:5]),
+                                ["%s:%d" % (c.file, c.line)])
+            if path.end == "ret" and path.ret is not None and "String::new" in vkey(path.ret)[:40]:
+                n_render += 1
+                d = {k: variant_name(v) for k, v in path.decisions}
+                none = any(k.startswith("discr(") and v == "None" for k, v in d.items())
+                trimmed = any(v is True and "." in k and "(" not in k for k, v in d.items())
+                if not (none and trimmed):
+                    r.violation(rid, "trim_left_preserve_layout renders a kept line as empty",
+                                "the renderer returns String::new() under %s — not only for (trimmed, _, None)" % d,
+                                ["%s:%d" % (c.file, c.line)])
+    r.instance(rid, "trim_left_preserve_layout: blank ⇒ empty line", "ok", "%s:%d" % (f.file, f.line),
+               "%d pushes on explored paths, %d empty renderings" % (n_push, n_render))
+    r.floor(rid, n_push, 20, "explored pushes of line triples in trim_left_preserve_layout")
+    r.floor(rid, n_render, 1, "String::new() renderings in trim_left_preserve_layout")
